@@ -26,7 +26,7 @@ func TestMain(m *testing.M) {
 
 var feeChoices = []uint{0, 100, 250, 500, 1000, 2000}
 
-func violate(t *rapid.T, sig, format string, a ...any) {
+func violate(t world.T, sig, format string, a ...any) {
 	sig = "C18|" + sig
 	if rec.IsKnown(sig) {
 		return
@@ -34,19 +34,69 @@ func violate(t *rapid.T, sig, format string, a ...any) {
 	t.Fatalf("VIOLATION %s: %s", sig, fmt.Sprintf(format, a...))
 }
 
+// spec of one case: per keyset (oldest first, the last one is active) the fee and the denominations held
+type spec struct {
+	Fees        []uint
+	Amounts     [][]uint64
+	CaseSeed    uint64
+	Amount      uint64 // 0: chosen by pick
+	IncludeFees bool
+}
+
 func propSend(t *rapid.T) {
 	nks := rapid.IntRange(1, 3).Draw(t, "keysets")
-	fees := make([]uint, nks)
-	for i := range fees {
-		fees[i] = rapid.SampledFrom(feeChoices).Draw(t, "fee_ppk")
+	sp := spec{Fees: make([]uint, nks), Amounts: make([][]uint64, nks)}
+	for i := range sp.Fees {
+		sp.Fees[i] = rapid.SampledFrom(feeChoices).Draw(t, "fee_ppk")
 	}
-	e := wenv.New(t, rapid.Uint64().Draw(t, "case_seed"), []uint{fees[0]}, []lnmodel.FeeMode{lnmodel.FeeZero})
+	sp.CaseSeed = rapid.Uint64().Draw(t, "case_seed")
+	total := 0
+	var balance, inactive uint64
+	for k := 0; k < nks; k++ {
+		n := rapid.IntRange(0, 12).Draw(t, "n_proofs")
+		if k == nks-1 && total == 0 && n == 0 {
+			n = 1
+		}
+		for i := 0; i < n; i++ {
+			a := uint64(1) << uint(rapid.IntRange(0, 9).Draw(t, "denomination"))
+			sp.Amounts[k] = append(sp.Amounts[k], a)
+			balance += a
+			if k < nks-1 {
+				inactive += a
+			}
+		}
+		total += n
+	}
+	switch rapid.IntRange(0, 4).Draw(t, "amount_class") {
+	case 0:
+		sp.Amount = rapid.Uint64Range(1, min(balance, 8)).Draw(t, "amount")
+	case 1:
+		sp.Amount = balance - rapid.Uint64Range(0, min(balance-1, 8)).Draw(t, "below_balance")
+	case 2:
+		// around what the inactive keysets hold: selection switches between "inactive proofs suffice" and "top up
+		// from the active keyset" here, and the fees of the inactive proofs decide on which side a case falls
+		if inactive > 1 {
+			sp.Amount = min(balance, max(1, inactive+4-rapid.Uint64Range(0, min(inactive, 12)).Draw(t, "around_inactive")))
+			break
+		}
+		fallthrough
+	default:
+		sp.Amount = rapid.Uint64Range(1, balance).Draw(t, "amount")
+	}
+	sp.IncludeFees = rapid.Bool().Draw(t, "include_fees")
+	sendCase(t, sp)
+}
+
+func sendCase(t world.T, sp spec) {
+	nks, fees := len(sp.Fees), sp.Fees
+	e := wenv.New(t, sp.CaseSeed, []uint{fees[0]}, []lnmodel.FeeMode{lnmodel.FeeZero})
 	defer e.Close()
 	mw := e.Mints[0]
 	mintURL := wenv.URL(mw)
-	// wallet contents: random multiset of denominations on each keyset, minted by the helper
+	// wallet contents: the multiset of denominations on each keyset, minted by the helper
 	var contents cashu.Proofs
 	feeOf := map[string]uint64{}
+	var inactive uint64
 	for k := 0; k < nks; k++ {
 		if k > 0 {
 			if _, err := mw.Mint.RotateKeyset(fees[k]); err != nil {
@@ -55,18 +105,16 @@ func propSend(t *rapid.T) {
 			mw.RefreshKeysets()
 		}
 		feeOf[mw.ActiveID] = uint64(fees[k])
-		n := rapid.IntRange(0, 12).Draw(t, "n_proofs")
-		if k == nks-1 && len(contents) == 0 && n == 0 {
-			n = 1
-		}
-		if n == 0 {
+		amounts := sp.Amounts[k]
+		if len(amounts) == 0 {
 			continue
 		}
-		amounts := make([]uint64, n)
 		var sum uint64
-		for i := range amounts {
-			amounts[i] = 1 << uint(rapid.IntRange(0, 9).Draw(t, "denomination"))
-			sum += amounts[i]
+		for _, a := range amounts {
+			sum += a
+		}
+		if k < nks-1 {
+			inactive += sum
 		}
 		q, err := mw.RequestMintQuote(sum, nil)
 		if err != nil {
@@ -92,16 +140,7 @@ func propSend(t *rapid.T) {
 	if got := sender.W.GetBalanceByMints()[mintURL]; got != balance {
 		t.Fatalf("wallet does not see its constructed contents: %d vs %d", got, balance)
 	}
-	var amount uint64
-	switch rapid.IntRange(0, 3).Draw(t, "amount_class") {
-	case 0:
-		amount = rapid.Uint64Range(1, min(balance, 8)).Draw(t, "amount")
-	case 1:
-		amount = balance - rapid.Uint64Range(0, min(balance-1, 8)).Draw(t, "below_balance")
-	default:
-		amount = rapid.Uint64Range(1, balance).Draw(t, "amount")
-	}
-	includeFees := rapid.Bool().Draw(t, "include_fees")
+	amount, includeFees := sp.Amount, sp.IncludeFees
 	rec.Eval()
 	e.Cur = "sender"
 	reqFrom := len(e.Reqs)
@@ -139,6 +178,10 @@ func propSend(t *rapid.T) {
 	}
 	cls := fmt.Sprintf("fees=%v|swap=%v|max_ppk=%d|keysets=%d", includeFees, swapped, maxFee, nks)
 	rec.Class("send_" + cls)
+	if inactive > 0 && amount <= inactive && amount+ref.Fee(allPpk) > inactive {
+		// inactive proofs cover the amount but not the amount plus fees
+		rec.Class("send_amount_within_fees_of_inactive_total")
+	}
 	if serr != nil {
 		if mustSucceed {
 			violate(t, fmt.Sprintf("send_failed_with_ample_balance|include_fees=%v", includeFees), "Send failed (%v) although amount + fee of all proofs + fee reserve <= balance; %s", serr, desc)
